@@ -49,7 +49,9 @@ func GuardPaths(logger s3log.AuditLogger, mm *metrics.Manager) fiber.Handler {
 		if args.Has("versionId") && !backend.IsSafeID(ctx.Query("versionId")) {
 			return fail(s3err.ErrInvalidVersionId)
 		}
-		if args.Has("uploadId") && !backend.IsSafeID(ctx.Query("uploadId")) {
+		// an upload id that is present but empty names no upload (joined
+		// into a path it would name the directory of all uploads of the key)
+		if args.Has("uploadId") && (ctx.Query("uploadId") == "" || !backend.IsSafeID(ctx.Query("uploadId"))) {
 			return fail(s3err.ErrNoSuchUpload)
 		}
 
